@@ -229,7 +229,29 @@ def rule_writers(ctx):
             if x[0] == "agg" and x[1].endswith("NetAddress"):
                 v = dict(x[3]).get("version")
                 okv = v is not None and v[0] == "call" and v[1] == "std::option::Option::unwrap_or" and v[2][1] == ("const", 0) and any(y[0] == "call" and y[1] == "std::option::Option::map" for y in subterms(v))
-    ctx.ob(R, "announce version", okv, "version = stored.map(|x| x.msg.version + 1).unwrap_or(0)" if okv else "announce version term not recognised", f.loc())
+                if not okv and v is not None and v[0] == "var":
+                    # match / if-let form: 0 when nothing is stored, stored version + 1 otherwise (guard table over the lookup)
+                    from .c07 import norm_arith
+
+                    def cls(t):
+                        t = norm_arith(t)
+                        if t == ("const", 0):
+                            return "zero"
+                        if t[0] == "bin" and t[1] == "Add" and t[3] == ("const", 1) and chain(t[2])[1][-2:] == ["msg", "version"]:
+                            return "succ"
+                        return "other"
+                    defs = {}
+                    for bi, b in enumerate(f.blocks):
+                        for st in b["s"]:
+                            if st["k"] == "assign" and not st["p"].get("pr") and st["p"]["l"] == v[1]:
+                                defs.setdefault(cls(T.rvalue(st["r"])), []).append(bi)
+                    if set(defs) == {"zero", "succ"}:
+                        def a_get(t):
+                            return t[0] == "call" and t[1].rsplit("::", 1)[-1] == "get" and len(t[2]) == 2
+                        W = Walker(ctx, f, [Atom("stored", "opt", a_get, ["None", "Some"])])
+                        names, tab = W.table(defs)
+                        okv = tab.get(("None",)) == {"zero"} and tab.get(("Some",)) == {"succ"}
+    ctx.ob(R, "announce version", okv, "version = stored version + 1, or 0 when nothing is stored" if okv else "announce version term not recognised", f.loc())
 
 
 def rule_handler(ctx):
